@@ -600,8 +600,9 @@ func factNewReplyEchoes(c *Ctx) (string, bool) {
 
 // ruleV4IdentityRO: first-party code never stores the identity fields of a DHCPv4 packet.
 func ruleV4IdentityRO(c *Ctx, rule string) {
-	allowed := map[string]bool{"YourIPAddr": true, "ServerIPAddr": true}
-	identity := map[string]bool{"OpCode": true, "HWType": true, "TransactionID": true, "ClientHWAddr": true, "Flags": true, "GatewayIPAddr": true, "HopCount": true, "NumSeconds": true, "ClientIPAddr": true, "ServerHostName": true, "BootFileName": true, "Options": true}
+	// yiaddr, siaddr, sname and file are the server's to fill (RFC 2131 table 3); the rest echoes the request
+	allowed := map[string]bool{"YourIPAddr": true, "ServerIPAddr": true, "ServerHostName": true, "BootFileName": true}
+	identity := map[string]bool{"OpCode": true, "HWType": true, "TransactionID": true, "ClientHWAddr": true, "Flags": true, "GatewayIPAddr": true, "HopCount": true, "NumSeconds": true, "ClientIPAddr": true, "Options": true}
 	n := 0
 	for _, fn := range c.P.SrcFuncs() {
 		if isFixture(fn) {
@@ -725,7 +726,15 @@ func ruleAddrCascade(c *Ctx, prefix string) {
 			N, _ := histEq(st, reN, nak)
 			// expected row
 			row, wantIP, wantPort, wantL2 := "", "", "", false
-			reqC := ex.Canon(st, h.di.Req).S
+			// the request is the packet FromBytes decoded (one call site, resolved above); its
+			// canonical form is matched by shape so that the cascade may live in a helper
+			reqC := "‹req›"
+			matchIP := func(got, want string) bool {
+				if strings.HasPrefix(want, reqC) {
+					return regexp.MustCompile(`^` + h.reReq + reQ(strings.TrimPrefix(want, reqC)) + `$`).MatchString(got)
+				}
+				return got == want
+			}
 			switch {
 			case G == 0:
 				row, wantIP, wantPort = "relay", reqC+".GatewayIPAddr", sport
@@ -768,8 +777,8 @@ func ruleAddrCascade(c *Ctx, prefix string) {
 					continue
 				}
 				peerIP = ipE.ce.S + ipE.suffix
-				if peerIP != wantIP || ptE.ce.S != wantPort {
-					siteRes[in].bad = fmt.Sprintf("row %s: reply addressed to (%s, port %s), want (%s, port %s)", row, shortName(stripAt(peerIP)), ptE.ce.S, shortName(stripAt(wantIP)), wantPort)
+				if !matchIP(peerIP, wantIP) || ptE.ce.S != wantPort {
+					siteRes[in].bad = fmt.Sprintf("row %s: reply addressed to (%s, port %s), want (%s, port %s)", row, shortName(stripAt(peerIP)), ptE.ce.S, strings.Replace(shortName(stripAt(wantIP)), reqC, "request", 1), wantPort)
 					siteRes[in].st = st
 					continue
 				}
